@@ -585,7 +585,7 @@ impl Connection {
         let result;
         {
             let online = self.state.assert_online();
-            if buffer.len() > MAX_PAYLOAD {
+            if buffer.len() > MAX_PAYLOAD || buffer.len() >> protocol::CHUNK_SIZE_BITS != 0 {
                 return Err(Error::TooLongData);
             }
             if !online.packet.can_fit_chunk(buffer, vital) {
